@@ -70,6 +70,8 @@ def wellformed(node, parent=None, out=None, depth=0):
         for c in node.children:
             if not (isinstance(c, WikiNode) and c.kind == K.LIST_ITEM):
                 out.append("LIST child not item: " + (c.kind.name if isinstance(c, WikiNode) else "str"))
+            elif c.sarg != node.sarg:
+                out.append("LIST_ITEM prefix differs from its LIST")   # documented: the list's sarg is the prefix of all its items
     if k in ARGK:
         if k != K.LINK and node.children:
             out.append(k.name + " has children")
